@@ -471,25 +471,23 @@ def correspond_accessors(run, binary, deep=False):
                 break
     return failures
 
-def probe_known(run, binary):
-    """C08-slice-position-i32-min: `(-v) as usize` in ArrValue::slice's get_idx overflows for v = i32::MIN
-    (C08_source_slice_position_i32_min_refuted); Jsonnet's answer is the clamped slice"""
+def probe_regressions(run, binary):
+    """regression cases of fixed findings.  4b122d6: `(-v) as usize` in the slice position clamp (ArrValue::slice
+    get_idx, and the string slice of val.rs) overflowed for v = i32::MIN; the answer is the clamped slice"""
     failures = []
     progs = [("[1, 2, 3][-2147483648:]", [1.0, 2.0, 3.0]), ("[1, 2, 3][:-2147483648]", []),
+             ('"abc"[-2147483648:]', "abc"), ('"abc"[:-2147483648]', ""),
              ("std.slice([1, 2, 3], -2147483648, null, null)", [1.0, 2.0, 3.0]),
-             ("[1, 2, 3][-2147483647:]", [1.0, 2.0, 3.0])]
+             ("[1, 2, 3][-2147483647:]", [1.0, 2.0, 3.0]), ("std.range(0, 4)[-2147483648:2147483647]", [0.0, 1.0, 2.0, 3.0, 4.0])]
     outs = core.run_harness(binary, "eval", [{"code": c} for c, _ in progs])
     for (code, want), o in zip(progs, outs):
-        run.note_case("known:" + code, True)
-        run.count("slice-position-i32-min")
+        run.note_case("regress:" + code, True)
+        run.count("slice-position-extreme")
         if "ok" in o and core.decanon(o["ok"]) == want:
             continue
-        f = {"case": {"jsonnet": code, "request": {"code": code}}, "what": "slice with an extreme position",
-             "summary": f"C08 slice with an extreme position is not the clamped slice: {code}",
-             "expected": want, "got": o}
-        if "-2147483648" in code and "panic" in o and "negate with overflow" in o["panic"]:
-            f["known"] = "C08-slice-position-i32-min"
-        failures.append(f)
+        failures.append({"case": {"jsonnet": code, "request": {"code": code}}, "what": "slice with an extreme position",
+                         "summary": f"C08 slice with an extreme position is not the clamped slice: {code}",
+                         "expected": want, "got": o})
     return failures
 
 
@@ -531,7 +529,7 @@ def check(run, terrs):
     failures, model_diffs = correspond(run, binary, enumerate_cases(run))
     failures += correspond_huge(run, binary)
     failures += correspond_accessors(run, binary)
-    failures += probe_known(run, binary)
+    failures += probe_regressions(run, binary)
     run.trusted = TRUSTED
     run.assumptions = ASSUMPTIONS
     return core.conclude(
